@@ -74,6 +74,12 @@ type SchedCfg struct {
 	YieldProb float64 `json:"yield_prob"`
 	// StallMax: maximal virtual stall at a parked yield (0 = pure reordering).
 	StallMax Dur `json:"stall_max"`
+	// StallUntil: stalls are only injected before this virtual time (0 = during the whole run);
+	// afterwards a parked yield is a pure reordering.
+	StallUntil Dur `json:"stall_until,omitempty"`
+	// StallSites: when set, only parks at these yield sites stall (and always do); parks at other
+	// sites are pure reorderings. Places the slow moments inside one kind of in-flight operation.
+	StallSites []string `json:"stall_sites,omitempty"`
 	// Free: free-run mode (C20): no central scheduling, store operations applied by the
 	// calling goroutine, observers off; used under the race detector.
 	Free bool `json:"free,omitempty"`
@@ -106,6 +112,8 @@ type Action struct {
 	// ("invoke","apply","return"), plus Delay.
 	At    Dur    `json:"at"`
 	OpN   int    `json:"op_n,omitempty"`
+	// OpKind: when set, OpN counts only the instance's operations of this kind (create, update, ...)
+	OpKind string `json:"op_kind,omitempty"`
 	Phase string `json:"phase,omitempty"`
 	Delay Dur    `json:"delay,omitempty"`
 
